@@ -149,6 +149,13 @@ func DecodeFrom(reader io.Reader) (*Pointer, io.Reader, error) {
 		return EmptyPointer(), contents, nil
 	}
 
+	if len(buf) >= blobSizeCutoff {
+		// Pointer files are smaller than the cutoff.  A full buffer
+		// means the input is at least that long, however much its
+		// beginning may look like a pointer.
+		return nil, contents, errors.NewNotAPointerError(errors.New(tr.Tr.Get("size exceeds Git LFS pointer size cutoff")))
+	}
+
 	p, err := decodeKV(bytes.TrimSpace(buf))
 	if err == nil && p != nil {
 		p.Canonical = p.Encoded() == string(buf)
